@@ -445,6 +445,37 @@ pub fn run(rep: &Report) {
             other => fail("HARNESS/C06: fixed expression not well-formed", "well-formed", format!("{:?}", other), src_case("expression", src), 0),
         }
     });
+    // long literals: a quote / backslash / both at every offset 0..=80 of a string (ASCII and
+    // multi-byte fill), integers behind 0..=320 leading zeros, digit strings of 1..=40 coefficient
+    // digits in positional and scientific notation
+    common::enumerate(rep, "long-literals", 81 * 6 + 321 + 40 * 6, 16, &|i, l| {
+        if i < 81 * 6 {
+            let (off, kind) = ((i % 81) as usize, i / 81);
+            let fill = if kind % 2 == 0 { "a" } else { "ä" };
+            let special = ["\"", "\\", "\\\""][(kind / 2) as usize];
+            let text = format!("{}{}tail {}", fill.repeat(off), special, fill.repeat(3));
+            l.label("long string literal with a special character at a chosen offset");
+            check_string(&StrCase { text, bad_pos: (off as u16).wrapping_mul(700), bad_char: 'q' }, l)
+        } else if i < 81 * 6 + 321 {
+            let zeros = (i - 81 * 6) as usize;
+            l.label("integer behind many leading zeros");
+            check_int(1234567 + zeros as i64, zeros, 0x5555_5555, l)
+        } else {
+            let r = i - 81 * 6 - 321;
+            let (digits, form) = ((r % 40) as usize + 1, r / 40);
+            let coef: String = (0..digits).map(|k| char::from(b'1' + ((k * 7 + 3) % 9) as u8)).collect();
+            let text = match form {
+                0 => format!("{}.{}", &coef[..1], if digits > 1 { &coef[1..] } else { "0" }),
+                1 => format!("{}.{}e-1", &coef[..1], if digits > 1 { &coef[1..] } else { "0" }),
+                2 => format!("{}.{}e+5", &coef[..1], if digits > 1 { &coef[1..] } else { "0" }),
+                3 => format!("{}e-7", coef),
+                4 => format!("0.{}{}", "0".repeat(digits), coef),
+                _ => format!("{}{}.5", coef, "0".repeat(digits)),
+            };
+            l.label("float literal with many digits");
+            check_float_text(&text, None, l)
+        }
+    });
     let n = rep.tier.pick(600_000u64, 40_000_000);
     common::random_search(rep, "random", 60, n, &arb_case, &|c: &Case, l| {
         l.sample(4, || match c {
